@@ -564,5 +564,40 @@ def search(res, tier, boost=False):
                                        pw_exact=pw, element=i, elem=dict(t=[ta, tb], x=[xa, xb]), mean=mean, int_abs=l1,
                                        history='problems solved so far against one cache directory per pw_exact (as '
                                        'example.py does): %s' % [c[:3] for c in combos[:combos.index((problem, domain, unif, local_ops)) + 1]]))
+    # the `--refinement uniform --grading` flow of example.py: SL (and the estimator's residual) are created ONCE on the first
+    # mesh; the mesh is re-created by hand as a graded tensor mesh in every iteration and its elements are handed to the
+    # long-lived operator.  Orthogonality must hold in the second iteration as in the first.
+    from ..slchecks import regrid_iterations
+    for problem, domain in ([('Dirichlet', 'UnitSquare')] if tier == 'quick' and not boost else [('Dirichlet', 'UnitSquare'), ('MildSingular', 'UnitSquare')]):
+        data = problem_helper(problem, domain)
+        for k, mesh_k, elems, old, fresh in regrid_iterations(domain, n_iter=2):
+            with contextlib.redirect_stdout(io.StringIO()):
+                SL = old['SL']
+                mat = SL.bilform_matrix(elems, elems)
+                rhs = data['g-linform'](elems)
+                Phi = np.linalg.solve(mat, rhs)
+                residual = ErrorEstimator.residual(None, elems, Phi, SL, None, data['g'], SL_exact_eval=False)
+            tl = sorted({float(t) for e in elems for t in e.time_interval})
+            xl = sorted({float(x) for e in elems for x in e.space_interval})
+            for i in (rng.sample(range(len(elems)), min(5, len(elems))) if k else range(len(elems))):
+                e = elems[i]
+                ta, tb = map(float, e.time_interval)
+                xa, xb = map(float, e.space_interval)
+                tbk = [ta] + [t for t in tl if ta < t < tb] + [tb]
+                xbk = [xa] + [x for x in xl if xa < x < xb] + [xb]
+                Tn = np.concatenate([a + (b - a) * tg for a, b in zip(tbk[:-1], tbk[1:])])
+                Wt = np.concatenate([(b - a) * wtg for a, b in zip(tbk[:-1], tbk[1:])])
+                Xn = np.concatenate([a + (b - a) * xg for a, b in zip(xbk[:-1], xbk[1:])])
+                Wx = np.concatenate([(b - a) * wxg for a, b in zip(xbk[:-1], xbk[1:])])
+                T, X = np.meshgrid(Tn, Xn, indexing='ij')
+                W = np.outer(Wt, Wx).ravel()
+                r = residual(T.ravel(), X.ravel(), e.gamma_space)
+                mean, l1 = float(np.dot(W, r)), float(np.dot(W, np.abs(r)))
+                res.count(('regrid-real', problem, k, i), True)
+                if abs(mean) > 5e-5 * l1 + 1e-12:
+                    res.violation('C03:residual-mean-nonzero:%s:%s:long-lived-operator' % (problem, domain),
+                                  dict(problem=problem, domain=domain, iteration=k, element=i, elem=dict(t=[ta, tb], x=[xa, xb]), mean=mean, int_abs=l1,
+                                       note='operator created on the mesh of iteration 0; elements of the re-created graded tensor mesh'))
+                    break
     shutil.rmtree(tmp, ignore_errors=True)
     res.notes['worst_mean_over_l1'] = worst
